@@ -260,7 +260,7 @@ theorem prefilled_enc (v : PrefilledTx) (h : prefilledC.wf v) : prefilledC.enc v
 
 theorem cmpctblock_enc (v : Cmpctblock) (h : cmpctblockC.wf v) : cmpctblockC.enc v = WireSpec.cmpctblock v := by
   obtain ⟨_, _, _, hp⟩ := h
-  have e1 := listTry_enc (vecBytes SHORT_TX_ID_LEN) id v.shortids (fun _ _ => rfl)
+  have e1 := listTry_enc (bytesN SHORT_TX_ID_LEN) id v.shortids (fun _ _ => rfl)
   have e2 := listTry_enc prefilledC WireSpec.prefilled v.prefilledtxn
     (fun a ha => prefilled_enc a (listTry_wf_all hp a ha))
   simp [cmpctblockC, WireSpec.cmpctblock, blockHeader_enc, u64_enc, e1, e2]
